@@ -25,6 +25,9 @@ import time
 import traceback
 
 ROOT = os.path.dirname(os.path.dirname(os.path.abspath(__file__)))
+# scratch runs (a seeded change applied to a scratch worktree named by CRCUBE_SRC) write their evidence and
+# replay files under VERIF_OUT instead of /verif, so that they never touch the evidence of the registered checks
+OUT = os.environ.get("VERIF_OUT") or ROOT
 
 
 class Space:
@@ -305,7 +308,7 @@ def run_property(prop_id, tier, seed, workers=None):
 
     new_violations = []
     known_hits = []
-    rep_dir = os.path.join(ROOT, "replays", prop_id)
+    rep_dir = os.path.join(OUT, "replays", prop_id)
     for key, (rank, space, st, v) in sorted(by_kind.items(), key=lambda kv: kv[0]):
         # reproduce twice in this (fresh) process before believing it
         again = []
@@ -337,9 +340,9 @@ def run_property(prop_id, tier, seed, workers=None):
 
     for entry, v, fn in known_hits:
         print("KNOWN-FINDING: property=%s %s [%s] replay=%s" % (
-            prop_id, entry.get("description", v["message"]), v["kind"], os.path.relpath(fn, ROOT)))
+            prop_id, entry.get("description", v["message"]), v["kind"], os.path.relpath(fn, OUT)))
     for v, fn in new_violations:
-        print("VIOLATION property=%s replay=%s" % (prop_id, os.path.relpath(fn, ROOT)))
+        print("VIOLATION property=%s replay=%s" % (prop_id, os.path.relpath(fn, OUT)))
         print("  kind=%s :: %s" % (v["kind"], v["message"]))
 
     wall = time.time() - t0
@@ -377,12 +380,12 @@ def run_property(prop_id, tier, seed, workers=None):
         "wall_s": round(wall, 2),
         "violations": len(new_violations),
     }
-    os.makedirs(os.path.join(ROOT, "evidence"), exist_ok=True)
-    with open(os.path.join(ROOT, "evidence", "%s.json" % prop_id), "w") as f:
+    os.makedirs(os.path.join(OUT, "evidence"), exist_ok=True)
+    with open(os.path.join(OUT, "evidence", "%s.json" % prop_id), "w") as f:
         json.dump(ev, f, indent=1, sort_keys=True)
     # the latest run of EACH tier is kept as well (evidence/<id>.json is whichever ran last)
-    os.makedirs(os.path.join(ROOT, "evidence", "by_tier"), exist_ok=True)
-    with open(os.path.join(ROOT, "evidence", "by_tier", "%s.%s.json" % (prop_id, tier)), "w") as f:
+    os.makedirs(os.path.join(OUT, "evidence", "by_tier"), exist_ok=True)
+    with open(os.path.join(OUT, "evidence", "by_tier", "%s.%s.json" % (prop_id, tier)), "w") as f:
         json.dump(ev, f, indent=1, sort_keys=True)
     print("%s tier=%s states=%d transitions=%d nontrivial=%d distinct_outcomes=%d "
           "assertions=%d violations=%d known=%d wall=%.1fs%s" % (
